@@ -160,4 +160,75 @@ theorem sinx_over_x_angle4D_ne_zero (teps : ℝ) (hteps : 0 < teps) (q1 q2 : Qua
       intro h; rw [h] at hc; simp at hc; linarith
     have hap : 0 < a := lt_of_le_of_ne h0 (Ne.symm ha)
     exact div_ne_zero (Real.sin_pos_of_pos_of_lt_pi hap hpi).ne' ha
+
+/-! ### 4-D dot product of linear combinations; `sinx_over_x` off its tiny branch; `cos (angle4D) = q1 ^ q2` -/
+
+/-- non-tiny branch of sinx_over_x -/
+theorem sinx_over_x_big {α : Type} [Field α] [LinearOrder α] [IsStrictOrderedRing α] (teps : α) (sin : α → α) (x : α)
+    (h : ¬ x * x < teps) : Gen.C10.sinx_over_x teps sin x = sin x / x := by
+  simp only [Gen.C10.sinx_over_x, h, ↓reduceIte]
+
+theorem dot4_lincomb_left {α : Type} [CommRing α] (k1 k2 : α) (q1 q2 p : Quat α) :
+    Gen.C10.Quat.dot4 p (lincomb k1 q1 k2 q2) = k1 * Gen.C10.Quat.dot4 p q1 + k2 * Gen.C10.Quat.dot4 p q2 := by
+  simp only [Gen.C10.Quat.dot4, lincomb]; ring
+theorem dot4_lincomb_right {α : Type} [CommRing α] (k1 k2 : α) (q1 q2 p : Quat α) :
+    Gen.C10.Quat.dot4 (lincomb k1 q1 k2 q2) p = k1 * Gen.C10.Quat.dot4 q1 p + k2 * Gen.C10.Quat.dot4 q2 p := by
+  simp only [Gen.C10.Quat.dot4, lincomb]; ring
+theorem normSq_lincomb {α : Type} [CommRing α] (k1 k2 : α) (q1 q2 : Quat α) :
+    normSq (lincomb k1 q1 k2 q2) = k1 * k1 * normSq q1 + k2 * k2 * normSq q2 + 2 * k1 * k2 * Gen.C10.Quat.dot4 q1 q2 := by
+  simp only [Gen.C10.Quat.dot4, lincomb, normSq]; ring
+theorem dot4_self {α : Type} [CommRing α] (q : Quat α) : Gen.C10.Quat.dot4 q q = normSq q := by
+  unfold Gen.C10.Quat.dot4 normSq; ring
+theorem dot4_comm {α : Type} [CommRing α] (p q : Quat α) : Gen.C10.Quat.dot4 p q = Gen.C10.Quat.dot4 q p := by
+  simp only [Gen.C10.Quat.dot4]; ring
+
+theorem Quat_neg_unit {α : Type} [CommRing α] (q : Quat α) (h : UnitQ q) : UnitQ (Gen.C10.Quat.neg q) := by
+  simp only [UnitQ, normSq, Gen.C10.Quat.neg] at *; linear_combination h
+theorem dot4_neg {α : Type} [CommRing α] (p q : Quat α) : Gen.C10.Quat.dot4 p (Gen.C10.Quat.neg q) = -Gen.C10.Quat.dot4 p q := by
+  simp only [Gen.C10.Quat.dot4, Gen.C10.Quat.neg]; ring
+
+
+/-- over ℝ: for unit quaternions, `cos (angle4D q1 q2) = q1 ^ q2` (also at q1 = -q2, where atan2 (2, 0) = π/2 gives cos π = -1) -/
+theorem cos_angle4D_real (q1 q2 : Quat ℝ) (h1 : UnitQ q1) (h2 : UnitQ q2) :
+    Real.cos (Gen.C10.Quat.angle4D Real.sqrt ratan2 q1 q2) = Gen.C10.Quat.dot4 q1 q2 := by
+  simp only [UnitQ, normSq] at h1 h2
+  simp only [Gen.C10.Quat.angle4D, ratan2, Gen.C10.Quat.dot4]
+  set D2 := (q1.r - q2.r) * (q1.r - q2.r) + ((q1.v.x - q2.v.x) * (q1.v.x - q2.v.x) + (q1.v.y - q2.v.y) * (q1.v.y - q2.v.y) + (q1.v.z - q2.v.z) * (q1.v.z - q2.v.z)) with hD2
+  set S2 := (q1.r + q2.r) * (q1.r + q2.r) + ((q1.v.x + q2.v.x) * (q1.v.x + q2.v.x) + (q1.v.y + q2.v.y) * (q1.v.y + q2.v.y) + (q1.v.z + q2.v.z) * (q1.v.z + q2.v.z)) with hS2
+  have hD0 : 0 ≤ D2 := by
+    have h0 := mul_self_nonneg (q1.r - q2.r); have h1 := mul_self_nonneg (q1.v.x - q2.v.x)
+    have h2 := mul_self_nonneg (q1.v.y - q2.v.y); have h3 := mul_self_nonneg (q1.v.z - q2.v.z)
+    linarith
+  have hS0 : 0 ≤ S2 := by
+    have h0 := mul_self_nonneg (q1.r + q2.r); have h1 := mul_self_nonneg (q1.v.x + q2.v.x)
+    have h2 := mul_self_nonneg (q1.v.y + q2.v.y); have h3 := mul_self_nonneg (q1.v.z + q2.v.z)
+    linarith
+  have hsum : S2 + D2 = 4 := by simp only [hS2, hD2]; linear_combination 2 * h1 + 2 * h2
+  have hS2c : S2 = 2 + 2 * (q1.r * q2.r + q1.v.x * q2.v.x + q1.v.y * q2.v.y + q1.v.z * q2.v.z) := by
+    simp only [hS2]; linear_combination h1 + h2
+  have hSS : Real.sqrt S2 * Real.sqrt S2 = S2 := Real.mul_self_sqrt hS0
+  have hDD : Real.sqrt D2 * Real.sqrt D2 = D2 := Real.mul_self_sqrt hD0
+  have hnorm : ‖(⟨Real.sqrt S2, Real.sqrt D2⟩ : ℂ)‖ = 2 := by
+    rw [Complex.norm_def, Complex.normSq_apply]
+    simp only [hSS, hDD, hsum]
+    rw [show (4 : ℝ) = 2 * 2 by norm_num]; exact Real.sqrt_mul_self (by norm_num)
+  have hne : (⟨Real.sqrt S2, Real.sqrt D2⟩ : ℂ) ≠ 0 := by
+    intro h; rw [h] at hnorm; simp at hnorm
+  have hc : Real.cos (Complex.arg ⟨Real.sqrt S2, Real.sqrt D2⟩) = Real.sqrt S2 / 2 := by
+    rw [Complex.cos_arg hne, hnorm]
+  rw [Real.cos_two_mul, hc]
+  have : (Real.sqrt S2 / 2) ^ 2 = S2 / 4 := by rw [div_pow, sq, hSS]; norm_num
+  rw [this, hS2c]; ring
+
+
+/-- `(T)(-0.25) * (a + b)` on quaternions, as the code computes it (scalar on the right of each component) -/
+def qscaleAdd {α : Type} [Add α] [Mul α] (k : α) (a b : Quat α) : Quat α :=
+  ⟨(a.r + b.r) * k, ⟨(a.v.x + b.v.x) * k, (a.v.y + b.v.y) * k, (a.v.z + b.v.z) * k⟩⟩
+
+
+theorem smin_eq_min {α : Type} [LinearOrder α] (a b : α) : smin a b = min a b := by
+  simp only [smin]; split_ifs with h
+  · exact (min_eq_right h.le).symm
+  · exact (min_eq_left (not_lt.mp h)).symm
+
 end ImathVerif.C10
